@@ -211,6 +211,58 @@ func ConflictDetectors(p *core.Program, r *core.Report, rule string) {
 		r.Check(bad == "", rule+"-sticky", s.fd.Key()+": the error captured by the sort callback is only ever set to a non-nil error", p.Pos(s.inFL.Pos()), "every assignment inside the callback is a constructor call",
 			"inside the comparison callback the captured error is assigned a value that may be nil ("+bad+"): a later comparison resets an earlier conflict, so only the last comparison decides and a conflicting pair can be accepted depending on its position")
 	}
+	// the same for every callback handed to a library function (invoked once per comparison / element) on the path:
+	// an assignment to a captured error variable must not be able to store nil, wherever the message is created
+	for fn := range reach {
+		fd := p.ByObj[fn]
+		if fd == nil {
+			continue
+		}
+		info := fd.Pkg.TypesInfo
+		ast.Inspect(fd.Decl.Body, func(nd ast.Node) bool {
+			call, ok := nd.(*ast.CallExpr)
+			if !ok {
+				return true
+			}
+			if cal := core.Callee(info, call); cal == nil || p.IsModuleFunc(cal) {
+				return true
+			}
+			for _, a := range call.Args {
+				fl, isFL := ast.Unparen(a).(*ast.FuncLit)
+				if !isFL {
+					continue
+				}
+				ast.Inspect(fl.Body, func(m ast.Node) bool {
+					a2, isAs := m.(*ast.AssignStmt)
+					if !isAs || a2.Tok == token.DEFINE {
+						return true
+					}
+					for i, l := range a2.Lhs {
+						lid, isID := l.(*ast.Ident)
+						if !isID {
+							continue
+						}
+						v, isV := info.ObjectOf(lid).(*types.Var)
+						if !isV || !core.IsErrorType(v.Type()) || (v.Pos() >= fl.Pos() && v.Pos() < fl.End()) {
+							continue
+						}
+						var rhs ast.Expr
+						if len(a2.Rhs) == len(a2.Lhs) {
+							rhs = a2.Rhs[i]
+						} else if len(a2.Rhs) == 1 {
+							rhs = a2.Rhs[0]
+						}
+						c, isC := ast.Unparen(rhs).(*ast.CallExpr)
+						okNonNil := isC && AlwaysReturnsError(p, core.Callee(info, c))
+						r.Check(okNonNil, rule+"-sticky", fmt.Sprintf("%s: callback of %s assigns the captured error %s only non-nil values", fd.Key(), core.ExprStr(call.Fun), lid.Name), p.Pos(a2.Pos()), "the right-hand side always yields an error",
+							"inside a callback that the library invokes repeatedly the captured error is assigned a value that may be nil ("+core.ExprStr(a2)+"): a later invocation resets an earlier conflict, so whether a conflicting pair is rejected depends on the order of comparisons, i.e. on its position in the input")
+					}
+					return true
+				})
+			}
+			return true
+		})
+	}
 	// carrier chain: callers propagate
 	for changed := true; changed; {
 		changed = false
